@@ -170,6 +170,43 @@ CaseOfClash(c) ==
      expect |-> [ok |-> TRUE, out |-> own.out, err |-> "", calls |-> [id \in {} |-> 0]]]
 ClashModelOK(c) == Ref(c, "local").ok /\ Render(World(LibOnlyTp(c)), "main", Ctx).ok /\ Ref(c, "local").out # Render(World(LibOnlyTp(c)), "main", Ctx).out
 
+\* ---- two libraries with macros of the same names --------------------------------------------------------------------------
+\* The template from-imports mm from library A (t1: mm calls its sibling hh) and reaches library B (t3: its own mm, its own hh)
+\* by import-as, by an aliased from-import, or through an included template that defines the pair itself.  A macro calls the
+\* siblings of its own library, whatever the caller has imported under the same names.
+LibB == <<Macro("mm", <<Param("a")>>, <<T(<<66>>), PrintS(Call("hh", <<Var("a")>>))>>), Macro("hh", <<Param("v")>>, <<T(<<79, 72>>), PrintS(Var("v"))>>)>>
+TwoLibCases == {[twolibs |-> r, ar |-> 1, defs |-> {}, n |-> 1, bk |-> "nested", site |-> site, argstyle |-> "plain"]
+                  : r \in {"import", "fromas", "include", "includefrom"}, site \in {"top", "loop", "block"}}
+TwoLibTp(c) ==
+    LET callA == PrintS(Call("mm", <<LI(10)>>))
+        reach == CASE c.twolibs = "import" -> <<Import(LS(NT.t3), "L")>> [] c.twolibs = "fromas" -> <<From(LS(NT.t3), <<"mm">>, <<"qq">>)>> [] OTHER -> <<>>
+        callB == CASE c.twolibs = "import" -> PrintS(MCall("L", "mm", <<LI(7)>>)) [] c.twolibs = "fromas" -> PrintS(Call("qq", <<LI(7)>>)) [] OTHER -> Inc(LS(NT.t2))
+    IN ("main" :> <<From(LS(NT.t1), <<"mm">>, <<"mm">>)>> \o reach \o Site(c, "local", <<callA, T(<<124>>), callB, T(<<124>>), callA>>))
+       @@ ("t1" :> Defs(c)) @@ ("t3" :> LibB)
+       @@ ("t2" :> IF c.twolibs = "include" THEN LibB \o <<PrintS(Call("mm", <<LI(7)>>))>> ELSE <<From(LS(NT.t3), <<"mm">>, <<"mm">>), PrintS(Call("mm", <<LI(7)>>))>>)
+CaseOfTwoLibs(c) ==
+    LET ref == Render(World(TwoLibTp(c)), "main", Ctx) IN
+    [prop |-> "C12", key |-> ToJson(c), tags |-> {"twolibs:" \o c.twolibs, "site:" \o c.site}, entry |-> "main", ctx |-> Ctx,
+     runs |-> {[label |-> "twolibs", tp |-> Sources(TwoLibTp(c), LMin), xcalls |-> [id \in {} |-> 0], again |-> 1]},
+     expect |-> [ok |-> ref.ok, out |-> ref.out, err |-> ref.err, calls |-> [id \in {} |-> 0]]]
+
+\* ---- a library reached through a hash that holds it ------------------------------------------------------------------------
+\* {% set ui = {'forms': L} %}{{ ui.forms.mm(..) }}: whether a macro can be called through such a path is not stated (the call may
+\* fail); if it renders, it renders the library's macro -- not the template's own macro of that name
+PathCases == {[path |-> w, ar |-> 1, defs |-> {}, n |-> 1, bk |-> bk, site |-> site, argstyle |-> "plain"] : w \in {"hash"}, bk \in {"print", "nested"}, site \in {"top", "loop", "block", "if"}}
+PathTp(c, viaPath) ==
+    LET own == Macro("mm", <<Param("a")>>, <<T(<<111, 119, 110>>)>>)
+        call == IF viaPath THEN PrintS([k |-> "mcall", al |-> "ui.forms", f |-> "mm", args |-> <<LI(10)>>]) ELSE PrintS(MCall("L", "mm", <<LI(10)>>)) IN
+    IF c.path = "hash"
+    THEN ("main" :> <<own, Import(LS(NT.t1), "L")>> \o (IF viaPath THEN <<Set("ui", Hash(<<LS(<<102, 111, 114, 109, 115>>)>>, <<Var("L")>>))>> ELSE <<>>) \o Site(c, "local", <<call>>)) @@ ("t1" :> Defs(c))
+    ELSE ("main" :> <<own, Import(LS(NT.t1), "L"), Include(LS(NT.t2), IF viaPath THEN Hash(<<LS(<<117, 105>>)>>, <<Hash(<<LS(<<102, 111, 114, 109, 115>>)>>, <<Var("L")>>)>>) ELSE Hash(<<LS(<<76>>)>>, <<Var("L")>>), TRUE, FALSE, FALSE, FALSE)>>)
+         @@ ("t2" :> <<own>> \o Site(c, "local", <<call>>)) @@ ("t1" :> Defs(c))
+CaseOfPath(c) ==
+    LET ref == Render(World(PathTp(c, FALSE)), "main", Ctx) IN
+    [prop |-> "C12", key |-> ToJson(c), tags |-> {"path:" \o c.path, "body:" \o c.bk, "site:" \o c.site}, entry |-> "main", ctx |-> Ctx,
+     runs |-> {[label |-> "path", tp |-> Sources(PathTp(c, TRUE), LMin), xcalls |-> [id \in {} |-> 0], again |-> 1, mayfail |-> TRUE]},
+     expect |-> [ok |-> ref.ok, out |-> ref.out, err |-> ref.err, calls |-> [id \in {} |-> 0]]]
+
 \* ---- macros that call themselves / each other to a depth of n: every level binds its own argument -------------------------
 \* (the expectation is written down directly: n, n-1, ... 0 separated by dots)
 DeepNs == {3, 31, 32, 33, 34, 64, 100}
@@ -193,9 +230,12 @@ CaseOfDeep(c) ==
 DeepAgrees == \A f \in DeepForms : Render(World(DeepTp([deep |-> 2, form |-> f])), "main", Ctx).out = CountDown(2)
 ASSUME DeepAgrees
 
-Init == cs \in DeepCases \cup ClashCases \cup {c \in Cases \cup NamedCases \cup SpyDefCases \cup ExprCases : Valid(c) /\ Ref(c, "local").ok}
+Init == cs \in DeepCases \cup ClashCases \cup TwoLibCases \cup PathCases \cup {c \in Cases \cup NamedCases \cup SpyDefCases \cup ExprCases : Valid(c) /\ Ref(c, "local").ok}
 Next == UNCHANGED cs
 Spec == Init /\ [][Next]_cs
-Emit == PrintT(ToJson(IF "deep" \in DOMAIN cs THEN CaseOfDeep(cs) ELSE IF "clash" \in DOMAIN cs THEN CaseOfClash(cs) ELSE CaseOf(cs)))
-ModelOK == "deep" \in DOMAIN cs \/ (IF "clash" \in DOMAIN cs THEN ClashModelOK(cs) ELSE FormsAgree(cs))
+Emit == PrintT(ToJson(IF "deep" \in DOMAIN cs THEN CaseOfDeep(cs) ELSE IF "clash" \in DOMAIN cs THEN CaseOfClash(cs) ELSE IF "twolibs" \in DOMAIN cs THEN CaseOfTwoLibs(cs)
+                      ELSE IF "path" \in DOMAIN cs THEN CaseOfPath(cs) ELSE CaseOf(cs)))
+ModelOK == "deep" \in DOMAIN cs \/ (IF "clash" \in DOMAIN cs THEN ClashModelOK(cs)
+                                  ELSE IF "twolibs" \in DOMAIN cs THEN Render(World(TwoLibTp(cs)), "main", Ctx).ok
+                                  ELSE IF "path" \in DOMAIN cs THEN Render(World(PathTp(cs, FALSE)), "main", Ctx).ok ELSE FormsAgree(cs))
 =============================================================================
